@@ -267,5 +267,32 @@ units[-3]["mutants"] = [QQM[0], QQM[1], QQM[3], QQM[5]]
 units[-2]["mutants"] = [QQM[2], QQM[3], QQM[5]]
 units[-1]["mutants"] = [QQM[4], QQM[5], QQM[2]]
 
+# ------------------------------------------------------------------ fn: parameter list
+units.append(unit(
+    "comp.fn.params", "h_fn", "janetc_fn",
+    "fn: for every parameter list of the documented grammar - fixed* [&opt opt+] [& rest | & | &keys k | &named n+] - arity counts the positional parameters, min arity those before &opt, "
+    "max arity is arity unless &, &keys or &named accept more, VARARG / STRUCTARG say how the remaining arguments are collected; positional parameter k, then the rest parameter or "
+    "&keys struct, is bound to register k (where the VM puts argument k), named parameters are destructured from the struct in register arity; the body is compiled in the new "
+    "function scope in order, last form in tail position (empty body returns nil); the enclosing code gets exactly one CLOSURE of the registered definition and is marked as creating a closure; "
+    "a symbol name allows self reference, a name is recorded in the definition",
+    "0..2 fixed and 0..2 optional symbol parameters, each tail variant, unnamed / symbol-named / keyword-named, 0..2 body forms; destructured (non-symbol) parameters not exercised; " + bound_ctx("any"),
+    [M("rest-counts-as-positional", "                        vararg = 1;\n                        arity -= 2;\n                    } else {\n                        errmsg = \"& in unexpected location\";", "                        vararg = 1;\n                        arity -= 1;\n                    } else {\n                        errmsg = \"& in unexpected location\";", "arity = number of positional"),
+     M("min-arity-off-by-one", "                    min_arity = i;\n                    arity--;", "                    min_arity = i + 1;\n                    arity--;", "min arity"),
+     M("keys-not-structarg", "                        vararg = 1;\n                        structarg = 1;\n                        arity -= 2;", "                        vararg = 1;\n                        arity -= 2;", "STRUCTARG iff"),
+     M("extra-args-rejected", "    max_arity = (vararg || allow_extra) ? INT32_MAX : arity;", "    max_arity = vararg ? INT32_MAX : arity;", "max arity"),
+     M("min-arity-zero-without-opt", "    if (!seenopt) min_arity = arity;\n", "", "min arity"),
+     M("body-order-reversed", "            JanetSlot s = janetc_value(subopts, argv[argi]);", "            JanetSlot s = janetc_value(subopts, argv[argn - 1 - (argi - parami - 1)]);", "in order|tail position"),
+     M("closure-flag-missing", "    c->scope->flags |= JANET_SCOPE_CLOSURE;\n    janetc_scope(&fnscope, c, JANET_SCOPE_FUNCTION, \"function\");", "    janetc_scope(&fnscope, c, JANET_SCOPE_FUNCTION, \"function\");", "marked as creating a closure")],
+    [A_VALUE, A_GROW + "; the symbol vector of the function scope and the named-parameter slot vector are preallocated (sp_grow_fn_stub)", A_ERR,
+     "fresh registers are 0, 1, 2, ... in allocation order (janetc_regalloc_1 of an empty function register file)",
+     "janetc_pop_funcdef takes the function scope's code out of the buffer, pops the scope and returns a definition with slotcount = registers handed out; janetc_addfuncdef registers it and returns its index; janet_def_addflags is a no-op",
+     "destructure (proved in comp.destructure.*) is a recording stub; janet_table / janet_table_put (keyword -> symbol table of named parameters) are recording stubs; janet_cstrcmp compares the interned marker symbols by identity"],
+    compile_keep=COMPILE_KEEP + ["janetc_farslot", "janetc_nameslot"],
+    replace=["janet_cstrcmp:sp_cstrcmp_fn_stub", "destructure:sp_destructure_stub", "janet_table:sp_table_stub", "janet_table_put:sp_table_put_stub",
+             "janetc_pop_funcdef:sp_pop_funcdef_fn_stub", "janetc_addfuncdef:sp_addfuncdef_fn_stub", "janet_def_addflags:sp_addflags_stub"],
+    grow="sp_grow_fn_stub", override={"janetc_regalloc_1": "sp_ra_1_seq_stub"}, wrap_keep=WRAP_KEEP + ["janet_wrap_keyword", "janet_wrap_table", "janet_unwrap_symbol"],
+    functions=["janetc_fn", "janetc_farslot", "janetc_nameslot", "janetc_scope"],
+    extra={"unwindset": {"sp_run.0": 14, "janetc_fn.0": 8, "janetc_fn.1": 8, "janetc_fn.2": 10, "janetc_fn.3": 4}, "unwind": 9}))
+
 json.dump({"units": units}, open(os.path.join(VERIF, "units", "C02_specials.json"), "w"), indent=1)
 print("wrote %d units" % len(units))
